@@ -67,7 +67,7 @@ func (g *git) ChangesIn(diffSpec string, relativeTo string) []string {
 	if relativeTo == "" {
 		relativeTo = g.repoRoot
 	}
-	command := []string{"diff-tree", "--no-commit-id", "--name-only", "-r", diffSpec}
+	command := []string{"diff-tree", "--no-commit-id", "--name-only", "--no-renames", "-r", diffSpec}
 	out, err := exec.Command("git", command...).CombinedOutput()
 	if err != nil {
 		log.Fatalf("unable to determine changes: %s\nOutput:\n%s", err, string(out))
@@ -86,8 +86,10 @@ func (g *git) ChangedFiles(fromCommit string, includeUntracked bool, relativeTo 
 		relativeTo = g.repoRoot
 	}
 	relSuffix := []string{"--", relativeTo}
-	command := make([]string, 0, 3+len(relSuffix))
-	command = append(command, []string{"diff", "--name-only", "HEAD"}...)
+	// N.B. --no-renames: a moved file must be reported under both its old and its new name, otherwise
+	//      whatever used it at its old location (e.g. through a directory) is never seen as affected.
+	command := make([]string, 0, 4+len(relSuffix))
+	command = append(command, []string{"diff", "--name-only", "--no-renames", "HEAD"}...)
 
 	out, err := exec.Command("git", append(command, relSuffix...)...).CombinedOutput()
 	if err != nil {
@@ -99,7 +101,7 @@ func (g *git) ChangedFiles(fromCommit string, includeUntracked bool, relativeTo 
 		// Grab the diff from the merge-base to HEAD using ... syntax.  This ensures we have just
 		// the changes that have occurred on the current branch.
 		fromCommand := make([]string, 0, 3+len(relSuffix))
-		fromCommand = append(fromCommand, []string{"diff", "--name-only", fromCommit + "...HEAD"}...)
+		fromCommand = append(fromCommand, []string{"diff", "--name-only", "--no-renames", fromCommit + "...HEAD"}...)
 		fromCommand = append(fromCommand, relSuffix...)
 		out, err = exec.Command("git", fromCommand...).CombinedOutput()
 		if err != nil {
